@@ -49,7 +49,7 @@ REDUCTIONS = ['first', 'mean', 'median', 'min', 'max']
 FLOATS = ['float32', 'float64']
 INTS = ['int8', 'int16', 'int32', 'int64', 'uint8', 'uint16', 'uint32', 'uint64']
 NAME_CHARS = 'ABCDEFGHIJKLMNOPQRSTUVWXYZabcdefghijklmnopqrstuvwxyz0123456789_-/[]()%+'
-UNITS = ['', 'm', 'ft', 'api', 'V/V', 'g/cm3', 'ohm.m', 'us/ft', 'degC', 'lbs', 'mV', '0.1in', 'K']
+UNITS = ['', 'm', 'ft', 'api', 'V/V', 'g/cm3', 'ohm.m', 'us/ft', 'degC', 'lbs', 'mV', '0.1in', 'K', 'HHMMSS', 'D', 'MS', 'S', 'hhmmss']
 
 
 # ----------------------------------------------------------------------------- generation
@@ -67,12 +67,29 @@ def _reads_as_value(s):
 
 
 def _ident(rng, taken):
+    """A channel identity: a blank-free token, sometimes LIS-style padded with blanks ('GR  ', ' X') - the reader strips
+    them - and sometimes one of the reader's special words (TIME, DATE; the units pool has HHMMSS and D)."""
     while True:
-        n = rng.choice([1, 2, 3, 4, 4, 4, 5, 8, 12, 20, 30])
-        s = rng.choice('ABCDEFGHIJKLMNOPQRSTUVWXYZabcdefghijklmnopqrstuvwxyz') + ''.join(rng.choice(NAME_CHARS) for _ in range(n - 1))
-        if s in taken or _reads_as_value(s) or s in ('DATE', 'TIME'):
+        k = rng.random()
+        if k < 0.06:
+            s = rng.choice(['TIME', 'DATE', 'Time', 'DATES'])
+        else:
+            n = rng.choice([1, 2, 3, 4, 4, 4, 5, 8, 12, 20, 30])
+            s = rng.choice('ABCDEFGHIJKLMNOPQRSTUVWXYZabcdefghijklmnopqrstuvwxyz') + ''.join(rng.choice(NAME_CHARS) for _ in range(n - 1))
+            if s in ('DATE', 'TIME'):
+                continue
+        if k > 0.85:
+            s = rng.choice([s.ljust(4), s + ' ', ' ' + s, s + '  ', '  ' + s + ' '])
+        if s in taken or _reads_as_value(s.strip()):
             continue
         return s
+
+
+def _variants(rng, name):
+    """names that are NOT `name` but look like it: stripped, padded, other case"""
+    v = {name.strip(), name.strip().ljust(4), name + ' ', ' ' + name, name.lower(), name.upper(), name.strip().lower()}
+    v.discard(name)
+    return sorted(v)
 
 
 def _float_value(rng, d, dtype):
@@ -137,6 +154,8 @@ def gen_case(rng):
         cnt = 1
         for s in shape: cnt *= s
         units = rng.choice(UNITS)
+        while (ident.strip(), units) in (('TIME', 'HHMMSS'), ('DATE', 'D')):      # the reader's two text columns: not numeric data
+            units = rng.choice(UNITS)
         ch = {'ident': ident, 'units': units, 'units_bytes': rng.random() < 0.2, 'long': rng.choice(['Depth', 'Gamma Ray', 'x', '', 'a:b', 'RHOB/Density']),
               'long_bytes': rng.random() < 0.2, 'dtype': dtype, 'shape': shape}
         vals = []
@@ -176,6 +195,13 @@ def gen_case(rng):
     else: sub = absent[:rng.randint(1, len(absent))]
     if kind == 'some' and not sub:
         kind = 'empty'
+    if kind != 'empty' and rng.random() < 0.35:
+        # requested names that only LOOK like a present name (stripped / padded / other case): they select nothing
+        for n in rng.sample(names, rng.randint(1, len(names))):
+            var = [v for v in _variants(rng, n) if v not in names]
+            if var:
+                sub.append(rng.choice(var))
+        kind += '+variants'
     mode = rng.choice(['combined', 'combined', 'separate', 'curve+array'])
     return {'chans': chans, 'n_frames': nfr, 'red': red, 'subset': sub, 'kind': kind, 'width': width, 'dec': d, 'mode': mode}
 
@@ -286,11 +312,13 @@ def evaluate(ctx, case, want_corr=False):
     names = [ch['ident'] for ch in case['chans']]
     curve, head, head_line, rows = parse_text(text)
     cnames = [c[0] for c in curve]
-    want = [names[c] for c in exp]
-    if cnames != want:
-        ctx.fail(case, f'curve section lists {cnames}, expected {want}'); return None
+    want_exact = [names[c] for c in exp]
+    want = [n.strip() for n in want_exact]                      # what a reader of the text sees
+    craw = [c[1][:c[1].find('.')] for c in curve]               # the writer prints f'{ident:<4}.' : exact identity, padded to 4
+    if craw != [f'{n:<4}' for n in want_exact] or cnames != want:
+        ctx.fail(case, f'curve section lists {craw}, expected {want_exact}'); return None
     if head != want:
-        ctx.fail(case, f'~A heading lists {head}, expected {want}'); return None
+        ctx.fail(case, f'~A heading lists {head}, expected {want_exact}'); return None
     if len(rows) != case['n_frames']:
         ctx.fail(case, f'{len(rows)} data rows for {case["n_frames"]} frames'); return None
     toks = [r.split() for r in rows]
@@ -336,6 +364,9 @@ def evaluate(ctx, case, want_corr=False):
             if (not isf) and ('.' in tok):
                 ctx.fail(case, f'integer channel printed with a decimal point: {tok!r}'); return None
     # ---- read back
+    if len(set(want)) != len(want):
+        ctx.count('stripped_names_collide_skipped_readback')       # 'GR' and 'GR  ' both written: one mnemonic for the reader
+        return {'text': text, 'exp': exp, 'head_line': head_line, 'rows': rows, 'npvals': npvals, 'curve': [names[c] for c in exp], 'head': [names[c] for c in exp]}
     xt = [t[0] for t in toks]
     xvals = [float(t) for t in xt]
     collide = len(set(xvals)) != len(xvals)
@@ -362,6 +393,8 @@ def evaluate(ctx, case, want_corr=False):
             ctx.fail(case, f'read-back frame count {las.number_of_frames()}, expected {case["n_frames"]}'); return None
         for k, c in enumerate(exp):
             data = np.ma.getdata(rfa.channels[k].array)
+            if data.dtype == object:
+                ctx.fail(case, f'numeric channel {names[c]!r} (units {case["chans"][c]["units"]!r}) read back as a text column: {data[:, 0].tolist()!r}'); return None
             if data.shape != (case['n_frames'], 1):
                 ctx.fail(case, f'read-back shape {data.shape}'); return None
             isf = case['chans'][c]['dtype'] in FLOATS
@@ -377,7 +410,7 @@ def evaluate(ctx, case, want_corr=False):
                 ctx.count('values_read_back')
     if len(exp) >= 2 and case['n_frames'] >= 2:
         ctx.nontriv((tuple((ch['dtype'], tuple(ch['shape'])) for ch in case['chans']), red, case['kind'], case.get('mode'), W, D, rows[0]))
-    return {'text': text, 'exp': exp, 'head_line': head_line, 'rows': rows, 'npvals': npvals, 'curve': cnames, 'head': head}
+    return {'text': text, 'exp': exp, 'head_line': head_line, 'rows': rows, 'npvals': npvals, 'curve': want_exact, 'head': want_exact}
 
 
 # ----------------------------------------------------------------------------- correspondence
